@@ -347,6 +347,41 @@ def load_corpus():
     return hs
 
 
+def seq_search(ctx, long_run):
+    """Deep sequential search on the real ringbuf.c (no shim, -O2) in regions the interleaving harness cannot reach:
+    rings larger than 64 KiB (index width) and, when something is already broken, more than 2^32 bytes through one
+    ring of non-power-of-two length (free-running index roll-over).  Runs the cases in parallel."""
+    import subprocess
+    R = vlib.REPO
+    exe, log = ctx.cc('h_ring_seq', [os.path.join(vlib.VERIF, 'harness/h_ring_seq.c'), R + '/librfn/ringbuf.c'], ['-O2'], san=False)
+    if not exe:
+        ctx.notes.append('h_ring_seq does not compile: ' + log[-400:]); return
+    cases = [(L, st, max(4 * L, 200000), ctx.seed) for L in (2, 3, 4, 5, 7, 16, 255, 256, 257, 4096, 65535, 65536, 65537, 70001, 131073, 200003)
+             for st in (0, L - 1, L // 2)]
+    if long_run:
+        # > 2^32 bytes through small non-power-of-two rings, several seeds each (data in flight at the roll-over is a matter of phase)
+        cases += [(L, 1, (1 << 32) + 100000, ctx.seed * 16 + k) for L in (3, 5, 7) for k in range(4)] + [(6, 1, (1 << 32) + 100000, ctx.seed)]
+    procs = []
+    for (L, st, n, sd) in cases:
+        procs.append(((L, st, n), subprocess.Popen([exe, str(L), str(st), str(n), str(sd)], stdout=subprocess.PIPE, stderr=subprocess.PIPE, text=True)))
+        while sum(1 for _, p in procs if p.poll() is None) >= 14:
+            import time; time.sleep(0.05)
+    moved = 0
+    for (L, st, n), p in procs:
+        try:
+            out, err = p.communicate(timeout=1500)
+        except subprocess.TimeoutExpired:
+            p.kill(); out, err = 'FAIL timeout', ''
+        if out.startswith('OK'):
+            moved += int(out.split()[1])
+        elif not ctx.violations:
+            why = out.strip() or f'crash rc={p.returncode} {err[-200:]}'
+            ctx.violation({'obligation': 'ring buffer: sequential bursts on the real code vs FIFO reference (deep search)', 'reason': why,
+                           'how_to_rerun': f'h_ring_seq {L} {st} {n} {ctx.seed}', 'buf_len': L, 'start_index': st, 'bytes': n},
+                          key=f'seq:{L}:{st}:' + why.split(' len=')[0])
+    ctx.cov['sequential_deep_search'] = {'cases': len(cases), 'bytes_moved': moved, 'crossed_2^32_bytes': long_run}
+
+
 def run(ctx):
     rng = vlib.Rng(ctx.seed)
     ctx._bytes = set()
@@ -388,6 +423,8 @@ def run(ctx):
                 report_violation(ctx, exe, h, why)
                 break
         ctx.cov['deep_search_histories'] = len(deep)
+    if (ctx.broken or ctx.tier == 'thorough') and not ctx.violations:
+        seq_search(ctx, long_run=bool(ctx.broken))
     ctx.cov['traces_validated_against_impl'] = agreed
     ctx.cov['histories_run'] = total
     ctx.cov['byte_values_delivered'] = len(ctx._bytes)
